@@ -524,6 +524,54 @@ def execute(prop, plan, tier, seed, expinfo, t_start, exp=None):
     for l in sorted(set(kf_lines)):
         print(l)
 
+    # ---- replay of the refuted obligations on the real code (before the evidence is written: a refutation that the replay
+    # contradicts is reported as undecided, see DESIGN.md 4)
+    outcome, rp = None, None
+    all_reported = list(reported)
+    if reported:
+        rdir = os.path.join(VERIF, 'work', 'replays')
+        os.makedirs(rdir, exist_ok=True)
+        rp = os.path.join(rdir, '%s_%d.json' % (prop, int(time.time())))
+        import replay
+        outcome = replay.attempt(prop, reported, workdir, seed)
+        if exp is not None and not os.environ.get('VEKVERIF_NO_DIFF_REPLAY') and any(v.get('backend') == 'verus' for v in reported):
+            try:
+                import replay_diff
+                anchors = {}
+                for vu in plan.vunits:
+                    anchors.update(vu.get('anchors', {}))
+                dres = replay_diff.attempt(prop, reported, anchors, exp, REPO, workdir)
+                outcome['details'] += dres
+                if any(d.get('found') for d in dres):
+                    outcome['failing_input_found'] = True
+                    first = [d for d in dres if d.get('found')][0]
+                    log('  failing input (replay on the real code): %s  input %s  HEAD %s  now %s'
+                        % (first.get('call'), first.get('input', '')[:300], first.get('result_at_HEAD', '')[:200], first.get('result_now', '')[:200]))
+                # A Verus refutation of a postcondition / invariant of a real function F is a *proof* failure. When F could be replayed with
+                # its clauses evaluated and, on every one of the pseudo-random inputs (generic, special-value and structured modes), the
+                # working tree returns what HEAD returns and every clause holds, the refutation is not reproduced on the real code: it
+                # is reported as UNDECIDED (proof not re-established after a change of the function's shape), not as a violation.
+                same = {}
+                for d in dres:
+                    if d.get('indistinguishable'):
+                        same[d['tag'].rsplit('/', 1)[0]] = d
+                if same:
+                    keep = []
+                    for v in reported:
+                        fnkey = v.get('fn') or (v.get('tag') or '').rsplit('/', 1)[0]
+                        if v.get('backend') == 'verus' and fnkey in same and v.get('kind') in ('postcondition', 'invariant', 'closure-postcondition', 'assertion'):
+                            undecided.append('%s: refuted by Verus but NOT reproduced on the real code: %s returns the same results as HEAD and satisfies '
+                                             'every evaluated clause on %d pseudo-random inputs (proof not re-established for the changed body)'
+                                             % (v['tag'], same[fnkey].get('call'), replay_diff.TRIALS))
+                        else:
+                            keep.append(v)
+                    reported = keep
+            except Exception as e:  # replay is best effort
+                outcome['details'].append(dict(found=False, reason='differential replay failed: %r' % e))
+        with open(rp, 'w') as f:
+            json.dump(dict(property=prop, tree_hash=expinfo.get('tree_hash'), violations=all_reported,
+                           reported_as_violation=[v['tag'] for v in reported], replay=outcome), f, indent=1, default=str)
+
     # known findings are decided (refuted and recorded); they are not counted among the obligations
     n_kf = len([v for v in violations if v not in reported])
     obligations -= n_kf
@@ -558,30 +606,6 @@ def execute(prop, plan, tier, seed, expinfo, t_start, exp=None):
 
     rc = 0
     if reported:
-        rdir = os.path.join(VERIF, 'work', 'replays')
-        os.makedirs(rdir, exist_ok=True)
-        rp = os.path.join(rdir, '%s_%d.json' % (prop, int(time.time())))
-        import replay
-        outcome = replay.attempt(prop, reported, workdir, seed)
-        if exp is not None and not os.environ.get('VEKVERIF_NO_DIFF_REPLAY') and any(v.get('backend') == 'verus' for v in reported):
-            # differential replay of refuted Verus obligations on the real code (HEAD vs working tree); best effort
-            try:
-                import replay_diff
-                anchors = {}
-                for vu in plan.vunits:
-                    anchors.update(vu.get('anchors', {}))
-                dres = replay_diff.attempt(prop, reported, anchors, exp, REPO, workdir)
-                outcome['details'] += dres
-                if any(d.get('found') for d in dres):
-                    outcome['failing_input_found'] = True
-                    first = [d for d in dres if d.get('found')][0]
-                    log('  failing input (differential replay): %s  input %s  HEAD %s  now %s'
-                        % (first.get('call'), first.get('input', '')[:300], first.get('result_at_HEAD', '')[:200], first.get('result_now', '')[:200]))
-            except Exception as e:  # replay never changes the verdict
-                outcome['details'].append(dict(found=False, reason='differential replay failed: %r' % e))
-        with open(rp, 'w') as f:
-            json.dump(dict(property=prop, tree_hash=expinfo.get('tree_hash'), violations=reported,
-                           replay=outcome), f, indent=1, default=str)
         suffix = '' if outcome.get('failing_input_found') else ' no-failing-input-found'
         for v in reported[:10]:
             log('  failed obligation: %s (%s, %s)' % (v['tag'], v['backend'], v['kind']))
